@@ -111,8 +111,19 @@ func (e *Exec) callStatic(f *frame, in ssa.Instruction, fn *ssa.Function, args [
 		return e.inline(f, in, fn, args, bindings, rt, h, g)
 	}
 	if sp := e.eng.specForFn(fn); sp != nil && sp.Inline == "always" && len(fn.Blocks) > 0 && len(e.inlineStk) < 8 {
-		// the contract asks for the body to be used at call sites (loops get the default invariant)
-		return e.inline(f, in, fn, args, bindings, rt, h, g)
+		// the contract asks for the body to be used at call sites (loops get the default invariant);
+		// its ghost assignments still happen at the return
+		res, hout, gout := e.inline(f, in, fn, args, bindings, rt, h, g)
+		if gout != "false" && hasGhostSet(sp) {
+			full := append([]Val{}, args...)
+			if len(res.Tup) > 0 {
+				full = append(full, res.Tup...)
+			} else if res.T != "" {
+				full = append(full, res)
+			}
+			e.applyGhostSets(sp, full, hout, gout)
+		}
+		return res, hout, gout
 	}
 	if sp := e.eng.specForFn(fn); sp != nil && sp.Inline != "always" && !sp.Ghost {
 		k1, _ := calleeKeyOf(fn)
@@ -146,7 +157,11 @@ func (e *Exec) canInline(fn *ssa.Function) bool {
 			return false
 		}
 	}
-	if len(e.inlineStk) >= e.eng.maxInline {
+	limit := e.eng.maxInline
+	if e.specDepth > 0 {
+		limit = 14 // specification code is small and must be expanded
+	}
+	if len(e.inlineStk) >= limit {
 		return false
 	}
 	root := fn
